@@ -3,7 +3,7 @@ From Coq Require Import String.
 From TlsModel Require Export Entries.
 From TlsModel Require Import SpecEntries.
 
-Definition all_entries : list (string * entry_fn) := entries_tls ++ spec_entries_tls.
+Definition all_entries : list (string * entry_fn) := entries_tls ++ entries_ext ++ entries_kx ++ entries_dtls ++ spec_entries_tls.
 
 Fixpoint find_entry (name : list byte) (l : list (string * entry_fn)) : option entry_fn :=
   match l with
